@@ -365,32 +365,48 @@ def _syms(t, acc=None, seen=None):
     return acc
 
 
-def compare_structure(spec, IN, OUT, func_tags=None, func_matcher=None):
-    """returns (Cmp, pi) ; pi[kind][input index] = output index, recovered by matching contents"""
+def compare_structure(spec, IN, OUT, func_tags=None, func_matcher=None, keep=None):
+    """returns (Cmp, pi) ; pi[kind][input index] = output index, recovered by matching contents.
+    keep (optional): {kind: set of input indices expected to survive} - entities outside it must be absent."""
     C = Cmp()
     pi = {k: {} for k in ('type', 'func', 'table', 'memory', 'global', 'element', 'data')}
-    # ---- types: de-duplicated and re-ordered; every described signature must exist in the output
+
+    def kept(kind, i):
+        return keep is None or i in keep.get(kind, ())
+    # ---- types: de-duplicated and re-ordered; every (kept) described signature must exist in the output
     for i, sig in enumerate(IN['types']):
         hits = [j for j, s in enumerate(OUT['types']) if s == sig]
-        if not hits:
-            pi['type'][i] = None
-        else:
-            pi['type'][i] = hits[0]
+        if not kept('type', i):
+            continue
+        pi['type'][i] = hits[0] if hits else None
         if len(hits) > 1:
             C.bad.append(('types.dup', 'signature %r appears %d times in the output type section' % (sig, len(hits))))
-    # ---- imports: same number, same order
-    if len(IN['imports']) != len(OUT['imports']):
-        C.bad.append(('imports.count', 'imports: %d described, %d emitted' % (len(IN['imports']), len(OUT['imports']))))
+        if not hits:
+            C.bad.append(('types.dropped', 'type %d %r is missing from the output' % (i, sig)))
+    if keep is not None:
+        want = set(IN['types'][i] for i in keep.get('type', ()))
+        for j, s in enumerate(OUT['types']):
+            if s not in want:
+                C.bad.append(('types.extra', 'output type %d %r is not needed by anything that is kept' % (j, s)))
+    # ---- imports: same order
     nin = {'func': 0, 'table': 0, 'memory': 0, 'global': 0}
     nout = {'func': 0, 'table': 0, 'memory': 0, 'global': 0}
-    for k, (a, b) in enumerate(zip(IN['imports'], OUT['imports'])):
+    in_imps = []
+    for a in IN['imports']:
+        k = a['kind']
+        if kept(k, nin[k]):
+            in_imps.append((nin[k], a))
+        nin[k] += 1
+    if len(in_imps) != len(OUT['imports']):
+        C.bad.append(('imports.count', 'imports: %d expected, %d emitted (%r)' % (len(in_imps), len(OUT['imports']), [(b['module'], b['name']) for b in OUT['imports']])))
+    for k, ((orig, a), b) in enumerate(zip(in_imps, OUT['imports'])):
         key = 'import[%d]' % k
         for f in ('module', 'name', 'kind'):
             if a[f] != b[f]:
-                C.bad.append((key + '.' + f, '%s.%s: %r vs %r' % (key, f, a[f], b[f])))
+                C.bad.append(('import.' + f, '%s.%s: %r vs %r' % (key, f, a[f], b[f])))
         if a['kind'] == b['kind']:
             kind = a['kind']
-            pi[kind][nin[kind]] = nout[kind]
+            pi[kind][orig] = nout[kind]
             if kind == 'func':
                 C.idx_eq(key + '.type', a['type'], b['type'], pi['type'], 'import.func.type')
             else:
@@ -398,20 +414,23 @@ def compare_structure(spec, IN, OUT, func_tags=None, func_matcher=None):
                     if f in ('module', 'name', 'kind'):
                         continue
                     C.term_eq('%s.%s' % (key, f), a[f], b.get(f), 'import.%s.%s' % (kind, f))
-        nin[a['kind']] += 1
         nout[b['kind']] += 1
     nimp = dict(nin)
     nimp_out = dict(nout)
-    # ---- local tables / memories / globals: same number, same order (arena order = input order)
+    # ---- local tables / memories / globals: same order
+    loc = {}
     for kind, sec in (('table', 'tables'), ('memory', 'memories'), ('global', 'globals')):
-        if len(IN[sec]) != len(OUT[sec]):
-            C.bad.append((sec + '.count', '%s: %d described, %d emitted' % (sec, len(IN[sec]), len(OUT[sec]))))
-        for k in range(min(len(IN[sec]), len(OUT[sec]))):
-            pi[kind][nimp[kind] + k] = nimp_out[kind] + k
+        ents = [(nimp[kind] + k, a) for k, a in enumerate(IN[sec]) if kept(kind, nimp[kind] + k)]
+        loc[kind] = ents
+        if len(ents) != len(OUT[sec]):
+            C.bad.append((sec + '.count', '%s: %d expected, %d emitted' % (sec, len(ents), len(OUT[sec]))))
+        for k, (orig, a) in enumerate(ents[:len(OUT[sec])]):
+            pi[kind][orig] = nimp_out[kind] + k
     # ---- local functions: re-ordered; recover the permutation from the tags carried by the bodies
-    nf_in, nf_out = len(IN['funcs']), len(OUT['funcs'])
+    in_funcs = [(nimp['func'] + k, f) for k, f in enumerate(IN['funcs']) if kept('func', nimp['func'] + k)]
+    nf_in, nf_out = len(in_funcs), len(OUT['funcs'])
     if nf_in != nf_out:
-        C.bad.append(('funcs.count', 'functions: %d described, %d emitted' % (nf_in, nf_out)))
+        C.bad.append(('funcs.count', 'functions: %d expected, %d emitted' % (nf_in, nf_out)))
     if len(OUT['code']) != nf_out:
         C.bad.append(('code.count', 'function section has %d entries, code section %d' % (nf_out, len(OUT['code']))))
     if func_tags is not None:
@@ -423,41 +442,46 @@ def compare_structure(spec, IN, OUT, func_tags=None, func_matcher=None):
             if len(owners) != 1:
                 C.bad.append(('code.provenance', 'emitted body %d carries the tags of functions %r' % (j, owners)))
             else:
-                if owners[0] in [x - nimp['func'] for x in pi['func'] if x >= nimp['func']]:
+                oi = nimp['func'] + owners[0]
+                if oi in pi['func']:
                     C.bad.append(('code.dup', 'function %d emitted twice' % owners[0]))
-                pi['func'][nimp['func'] + owners[0]] = nimp_out['func'] + j
-        for i in range(nf_in):
-            if nimp['func'] + i not in pi['func']:
-                C.bad.append(('code.dropped', 'function %d (tag %s) is missing from the output' % (i, func_tags[i])))
+                if not kept('func', oi):
+                    C.bad.append(('funcs.extra', 'function %d (tag %s) should have been removed' % (owners[0], func_tags[owners[0]])))
+                pi['func'][oi] = nimp_out['func'] + j
+        for orig, f in in_funcs:
+            if orig not in pi['func']:
+                C.bad.append(('code.dropped', 'function %d (tag %s) is missing from the output' % (orig - nimp['func'], func_tags[orig - nimp['func']])))
     elif func_matcher is not None:
         pi['func'].update(func_matcher(IN, OUT, nimp['func'], nimp_out['func']))
-        for i in range(nf_in):
-            if nimp['func'] + i not in pi['func']:
-                C.bad.append(('code.dropped', 'function %d has no counterpart in the output' % i))
+        for orig, f in in_funcs:
+            if orig not in pi['func']:
+                C.bad.append(('code.dropped', 'function %d has no counterpart in the output' % (orig - nimp['func'])))
     else:
-        for k in range(min(nf_in, nf_out)):
-            pi['func'][nimp['func'] + k] = nimp_out['func'] + k
-    for k in range(min(len(IN['elements']), len(OUT['elements']))):
-        pi['element'][k] = k
-    for k in range(min(len(IN['data']), len(OUT['data']))):
-        pi['data'][k] = k
+        for k, (orig, f) in enumerate(in_funcs[:nf_out]):
+            pi['func'][orig] = nimp_out['func'] + k
+    in_elems = [(k, e) for k, e in enumerate(IN['elements']) if kept('element', k)]
+    in_data = [(k, d) for k, d in enumerate(IN['data']) if kept('data', k)]
+    for k, (orig, e) in enumerate(in_elems[:len(OUT['elements'])]):
+        pi['element'][orig] = k
+    for k, (orig, d) in enumerate(in_data[:len(OUT['data'])]):
+        pi['data'][orig] = k
     # ---- function signatures
-    for i in range(nf_in):
-        j = pi['func'].get(nimp['func'] + i)
+    for orig, f in in_funcs:
+        j = pi['func'].get(orig)
         if j is None:
             continue
         j -= nimp_out['func']
-        if j < len(OUT['funcs']):
-            C.idx_eq('function[%d].type' % i, IN['funcs'][i]['type'], OUT['funcs'][j]['type'], pi['type'], 'func.type')
+        if 0 <= j < len(OUT['funcs']):
+            C.idx_eq('function[%d].type' % (orig - nimp['func']), f['type'], OUT['funcs'][j]['type'], pi['type'], 'func.type')
     # ---- attributes of local entities
     for kind, sec in (('table', 'tables'), ('memory', 'memories')):
-        for k, (a, b) in enumerate(zip(IN[sec], OUT[sec])):
+        for (orig, a), b in zip(loc[kind], OUT[sec]):
             for f in a:
-                C.term_eq('%s[%d].%s' % (sec, k, f), a[f], b.get(f), '%s.%s' % (kind, f))
-    for k, (a, b) in enumerate(zip(IN['globals'], OUT['globals'])):
+                C.term_eq('%s[%d].%s' % (sec, orig, f), a[f], b.get(f), '%s.%s' % (kind, f))
+    for (orig, a), b in zip(loc['global'], OUT['globals']):
         for f in ('ty', 'mutable', 'shared'):
-            C.term_eq('globals[%d].%s' % (k, f), a[f], b.get(f), 'global.%s' % f)
-        C.cexpr_eq('globals[%d].init' % k, a['init'], b['init'], pi, 'global.init')
+            C.term_eq('globals[%d].%s' % (orig, f), a[f], b.get(f), 'global.%s' % f)
+        C.cexpr_eq('globals[%d].init' % orig, a['init'], b['init'], pi, 'global.init')
     # ---- exports
     if len(IN['exports']) != len(OUT['exports']):
         C.bad.append(('exports.count', 'exports: %d described, %d emitted' % (len(IN['exports']), len(OUT['exports']))))
@@ -475,10 +499,10 @@ def compare_structure(spec, IN, OUT, func_tags=None, func_matcher=None):
     elif IN['start'] is not None:
         C.idx_eq('start', IN['start'], OUT['start'], pi['func'], 'start')
     # ---- element segments
-    if len(IN['elements']) != len(OUT['elements']):
-        C.bad.append(('elements.count', 'element segments: %d described, %d emitted' % (len(IN['elements']), len(OUT['elements']))))
-    for k, (a, b) in enumerate(zip(IN['elements'], OUT['elements'])):
-        key = 'elements[%d]' % k
+    if len(in_elems) != len(OUT['elements']):
+        C.bad.append(('elements.count', 'element segments: %d expected, %d emitted' % (len(in_elems), len(OUT['elements']))))
+    for (orig, a), b in zip(in_elems, OUT['elements']):
+        key = 'elements[%d]' % orig
         if a['mode'] != b['mode']:
             C.bad.append(('element.mode', '%s.mode: %s vs %s' % (key, a['mode'], b['mode'])))
             continue
@@ -504,10 +528,10 @@ def compare_structure(spec, IN, OUT, func_tags=None, func_matcher=None):
             for n, (x, y) in enumerate(zip(ia[2], ib[2])):
                 C.cexpr_eq('%s.items[%d]' % (key, n), x, y, pi, 'element.items')
     # ---- data segments
-    if len(IN['data']) != len(OUT['data']):
-        C.bad.append(('data.count', 'data segments: %d described, %d emitted' % (len(IN['data']), len(OUT['data']))))
-    for k, (a, b) in enumerate(zip(IN['data'], OUT['data'])):
-        key = 'data[%d]' % k
+    if len(in_data) != len(OUT['data']):
+        C.bad.append(('data.count', 'data segments: %d expected, %d emitted' % (len(in_data), len(OUT['data']))))
+    for (orig, a), b in zip(in_data, OUT['data']):
+        key = 'data[%d]' % orig
         if a['mode'] != b['mode']:
             C.bad.append(('data.mode', '%s.mode: %s vs %s' % (key, a['mode'], b['mode'])))
             continue
